@@ -16,6 +16,11 @@ The layout tree is the inductive tree `LT` (the arena of `TreeStore` with first-
 links is the Rust representation of exactly this).  `LT.data` mirrors `Layout::data` as far as the
 views read it back: `1`/`2` = the view a `Dynamic` built, `3` = a `Tag` value, `0` = none.
 
+`Dynamic` is modelled for build closures that pick one of two views by a threshold on the maximum width
+(`V.dyn thr a b`); like `Tag` and the cached `ref` view it lays the view it wraps out in a child node
+(repaired code).  `Option::Some`, `Either`, `Box`, `Arc`, `&V`, `TraceLayout` forward both calls and are
+not represented.
+
 A surface is a `Shape` (same six fields as `surf_n_term::surface::Shape`); `Shape.view` is the Rust
 `Shape::view` on top of C08's `viewBounds`.  Rendering returns the list of *paint events*: every
 call of a leaf `render`, and every `erase`/frame fill of an inner node, with the shape it writes
